@@ -21,7 +21,9 @@ LEVEL_ASSUMPTIONS = [
     "oracle: Python-int cyclic sum; the wrappers replace the module globals "
     "ea1p1_revn.rev_if_not_worse / fea1p1_revn.rev_if_h_not_worse that "
     "solve() looks up at call time (zero wrapper calls => inconclusive)"]
-REQUIRED = {"runs_with_entries_above_2^31": 10, "kernel_calls_ea": 5000, "kernel_calls_fea": 5000,
+REQUIRED = {"same_name_sibling_histories": 20,
+            "runs_with_entries_above_2^31": 10, "kernel_calls_ea": 5000,
+            "kernel_calls_fea": 5000,
             "register_events": 10000, "moves_i0": 200, "moves_j_nm2": 200,
             "accepted_moves": 2000, "direct_all_ij_instances": 10,
             "runs": 100}
@@ -224,7 +226,10 @@ def make_alg(kind, inst):
     return TSPEA1p1revn(inst) if kind == "ea" else TSPFEA1p1revn(inst)
 
 
-def run_one(ctx, m, name, alg_kind, seed, fes):
+LAST_BY_NAME: dict = {}
+
+
+def run_one(ctx, m, name, alg_kind, seed, fes, own_name=None, prev=None):
     from moptipy.api.algorithm import Algorithm
     from moptipy.api.execution import Execution
     from moptipy.spaces.permutations import Permutations
@@ -234,13 +239,24 @@ def run_one(ctx, m, name, alg_kind, seed, fes):
     install_wrappers()
     n = len(m)
     if name is None:
-        inst = Instance("v" + format(abs(hash(str(m))) % (1 << 30), "x"), 0,
-                        np.array(m, np.int64))
+        if own_name is None:
+            own_name = "v" + format(abs(hash(str(m))) % (1 << 30), "x")
+        # users name their instances; two different instances may carry the
+        # same name in one process: the earlier one is part of the history
+        key = (own_name, alg_kind)
+        if prev is None:
+            prev = LAST_BY_NAME.get(key)
+        if prev is not None and prev != m:
+            ctx.count("same_name_sibling_histories")
+        LAST_BY_NAME[key] = m
+        inst = Instance(own_name, 0, np.array(m, np.int64))
     else:
         inst = Instance.from_resource(name)
     inner = make_alg(alg_kind, inst)
     case = {"kind": "run", "matrix": m if name is None else None,
-            "name": name, "alg": alg_kind, "seed": seed, "fes": fes}
+            "name": name, "alg": alg_kind, "seed": seed, "fes": fes,
+            "own_name": own_name, "prev_same_name": prev
+            if prev is not None and prev != m else None}
     STATE.update(ctx=ctx, m=m, case=case, accepted=0,
                  ub=int(inst.tour_length_upper_bound))
 
@@ -355,7 +371,8 @@ def run_shard(ctx, args):
                 fes = 1      # no move exists; more FEs would never be used
             else:
                 fes = int(rng.choice([1, 2, 17, 256, 1000, 5000]))
-            acc = run_one(ctx, m, name, alg, seed, fes)
+            acc = run_one(ctx, m, name, alg, seed, fes,
+                          own_name=(f"rnd{len(m)}" if it % 2 else None))
             if it % 30 == 3 and alg == "fea":
                 ctx.sample({"n": len(m), "instance": name or m[:3],
                             "alg": alg, "seed": seed, "fes": fes,
@@ -371,4 +388,10 @@ def replay(ctx, case):
         from moptipyapps.tsp.instance import Instance
         m = [[int(v) for v in row] for row in
              np.asarray(Instance.from_resource(case["name"]))]
-    run_one(ctx, m, case["name"], case["alg"], case["seed"], case["fes"])
+    prev = case.get("prev_same_name")
+    if prev is not None:
+        # the sibling that ran before under the same name
+        run_one(ctx, prev, None, case["alg"], case["seed"], min(
+            case["fes"], 50), own_name=case.get("own_name"))
+    run_one(ctx, m, case["name"], case["alg"], case["seed"], case["fes"],
+            own_name=case.get("own_name"), prev=prev)
